@@ -585,7 +585,7 @@ pub fn run(tier: Tier) -> i32 {
         }
     }
     check_signatures(&mut st);
-    rep.rule = "explicit-state BFS over all histories of register(name, A|B|Sig) / deregister(name) / register_builtins over the names {abs, length, foo} up to the depth bound; after every history get_function presence for 6 names and 8 probe calls compiled from that runtime are compared with the reference map (most recent registration still registered wins; builtins per R-fn; unknown-function otherwise). Call protocol: recording custom functions on every argument vector up to the bound over {a, b, &a, `1`, rec2(a), rec2(&b, b)} in 9 contexts: recorded argument images, invocation order and results equal R-eval's; CustomFunction x 12 signature types x {fixed, variadic} x all argument class vectors of length <= 2: closure invoked iff the signature is satisfied. non-trivial = non-empty history / function actually invoked".into();
+    rep.rule = "explicit-state BFS over all histories of register(name, A|B|Sig) / deregister(name) / register_builtins over the names {abs, length, foo} up to the depth bound; after every history get_function presence for 6 names and 8 probe calls compiled from that runtime are compared with the reference map (most recent registration still registered wins; builtins per R-fn; unknown-function otherwise). Call protocol: recording custom functions on every argument vector up to the bound over {a, b, &a, `1`, rec2(a), rec2(&b, b)} in 9 contexts: recorded argument images, invocation order and results equal R-eval's; CustomFunction x 12 signature types x {fixed, variadic} x all argument class vectors of length <= 2: closure invoked iff the signature is satisfied. non-trivial = non-empty history / function actually invoked Custom signatures in three shapes (one parameter; parameter + variadic tail; string parameter + variadic tail of the type) with every argument vector up to length 3 (variadic) and a 5-class subset at length 4; protocol contexts include a null left-hand side with and without a further step applied to the call.".into();
     rep.bounds = json!({"history_depth": depth, "operations": nops, "protocol_max_args": maxargs});
     rep.stats = st;
     rep.finish()
